@@ -147,7 +147,13 @@ fn expected_entry(world: &World, dic: usize, row: usize) -> Vec<Option<String>> 
 }
 
 pub fn run(ctx: &Ctx, rep: &mut Report) {
-    let n_worlds = ctx.n(320, 12000);
+    let miri = ctx.stage == "miri";
+    let n_worlds = match ctx.stage.as_str() {
+        "miri" => ctx.nshards,
+        "valgrind" => ctx.nshards * 3,
+        "asan" => ctx.n(160, 1600),
+        _ => ctx.n(320, 12000),
+    };
     for wi in ctx.indices(n_worlds) {
         if ctx.out_of_time() {
             rep.notes.push(format!("stopped at world {} (time budget)", wi));
@@ -155,12 +161,12 @@ pub fn run(ctx: &Ctx, rep: &mut Report) {
         }
         let mut rng = Rng::derive(ctx.seed, 0xC05, wi);
         rep.progress_idx(wi, "C05 world");
-        let dopts = DictOpts { cost_extremes: true, ..DictOpts::default() };
+        let dopts = DictOpts { cost_extremes: true, max_entries: if miri { 10 } else { 40 }, ..DictOpts::default() };
         let matrix = dictgen::gen_matrix(&mut rng, &dopts);
         let mut sys = dictgen::gen_system(&mut rng, &dopts, &matrix);
-        boundary_rows(&mut rng, &mut sys, matrix.nid() as i64, wi % 16 == 0);
+        boundary_rows(&mut rng, &mut sys, matrix.nid() as i64, wi % 16 == 0 && !miri);
         let mut popts = PluginOpts::none();
-        popts.n_users = *rng.pick(&[0usize, 0, 1, 2, 3]);
+        popts.n_users = if miri { rng.below(2) } else { *rng.pick(&[0usize, 0, 1, 2, 3]) };
         let world = match guard(|| build_world_from(&mut rng, &dopts, matrix, sys, popts, Place::Owned)) {
             Ok(Ok(w)) => w,
             Ok(Err(e)) => {
@@ -265,7 +271,9 @@ pub fn run(ctx: &Ctx, rep: &mut Report) {
 
         // 4. alignment independence
         let cfg = env::config(&world.cfg_json, &world.res);
-        let offsets: Vec<usize> = if wi % 8 == 0 { (0..8).collect() } else { vec![1, 1 + rng.below(7)] };
+        // under Miri every base alignment 0..7: both branches of CowArray::from_bytes and the unaligned
+        // reads of the word id table run under the interpreter's alignment check
+        let offsets: Vec<usize> = if wi % 8 == 0 || miri { (0..8).collect() } else { vec![1, 1 + rng.below(7)] };
         for off in offsets {
             let d2 = match guard(|| env::load(&cfg, &world.sys_bytes, &world.user_bytes, Place::Offset(off))) {
                 Ok(Ok(d)) => d,
